@@ -17,7 +17,7 @@ META['text'] += ' A declarative family makes GOSUB / ON n GOSUB fail (missing li
 def run(ctx):
     ctx.cov['rule'] = ('one case = one generated program run on the real interpreter; evaluations = statement boundaries validated by TLC; '
                        'distinct = distinct program texts')
-    interp_check.run_model_families(ctx, ['for', 'for2', 'on', 'gosub', 'while'])
+    interp_check.run_model_families(ctx, ['for', 'for2', 'on', 'gosub', 'while', 'nestedif'])
     st = interp_check.run_family(ctx, {'ctl', 'stray'}, ctx.pick(260, 6000), size=14)
     if st['boundaries'] < 1000:
         raise core.MachineryError('too few boundaries validated')
